@@ -2,6 +2,7 @@ package main
 
 import (
 	"fmt"
+	"os"
 	"go/token"
 	"go/types"
 	"strings"
@@ -234,9 +235,10 @@ func checkC17(p *Prog, r *Report) {
 	if cal := calleeOf(&tpCall.Call); cal != nil {
 		keepB[cal] = true
 	}
-	bips, okb := p.ipathsKeeping(tr, keepB)
+	// loop-carried state is left symbolic: each one-iteration path stands for an arbitrary iteration
+	bips, okb := p.ipathsHavoc(tr, keepB)
 	errPrefix := sk(errsV) + "["
-	missClean, wroteFailed, nOne := "", "", 0
+	missClean, wroteFailed, nOne, nClean, nFailed := "", "", 0, 0, 0
 	for _, ip := range bips {
 		n := 0
 		for _, b := range ip.Root {
@@ -249,32 +251,72 @@ func checkC17(p *Prog, r *Report) {
 		}
 		isNil, notNil := false, false
 		for k := range ip.Rels {
-			if i := topLevelIndex(k, " == "); i >= 0 && k[:i] == "nil" && strings.HasPrefix(k[i+4:], errPrefix) {
+			if nilCmp(k, " == ", errPrefix) {
 				isNil = true
 			}
-			if i := topLevelIndex(k, " != "); i >= 0 && k[:i] == "nil" && strings.HasPrefix(k[i+4:], errPrefix) {
+			if nilCmp(k, " != ", errPrefix) {
 				notNil = true
 			}
 		}
+		if isNil {
+			nClean++
+		}
+		if notNil {
+			nFailed++
+		}
 		wrote := len(ip.eventsOf(fullName(wcal))) > 0
-		// a path that leaves through os.Exit before reaching the write (directory creation etc.) decides nothing
-		completed := ip.Exit == "return" || wrote
-		if !completed {
-			last := ""
-			if len(ip.Events) > 0 {
-				last = ip.Events[len(ip.Events)-1].Callee
+		// the iteration is complete when the loop header is reached again (or the write happened); a path
+		// that leaves the process inside the iteration before the write decides nothing
+		hv := 0
+		for _, b := range ip.Root {
+			if b == header {
+				hv++
 			}
-			if last == "os.Exit" && !notNil {
-				continue
-			}
+		}
+		if os.Getenv("VERIF_DEBUG") == "R17b" {
+			fmt.Println("R17b path", ip.Trace[:min(len(ip.Trace), 90)], "exit", ip.Exit, "isNil", isNil, "notNil", notNil, "wrote", wrote, "hv", hv)
+		}
+		if hv < 2 && !wrote {
+			continue
 		}
 		nOne++
 		if isNil && !wrote {
 			missClean = "a package that translated without error is not written on the path " + ip.Trace
 		}
-		if notNil && wrote && (ignoreP == nil || !ip.Rels[ignoreP.Name()+" == true"]) {
+		if notNil && wrote && (ignoreP == nil || !ip.Rels[ignoreP.Name()+" == true"] && !ip.Rels["true == "+ignoreP.Name()]) {
 			wroteFailed = "a package whose translation failed is written without the fact " + "ignoreErrors == true on the path " + ip.Trace
 		}
+	}
+	// inductive step of the exit status: a normal return after an arbitrary iteration requires that the
+	// incoming error flag was false and that this iteration's package had no error
+	retBad, nRetP := "", 0
+	for _, ip := range bips {
+		n := 0
+		for _, b := range ip.Root {
+			if b == errIf.Block() {
+				n++
+			}
+		}
+		if n != 1 || ip.Exit != "return" {
+			continue
+		}
+		nRetP++
+		flagIn := false
+		for k := range ip.Rels {
+			if (strings.HasPrefix(k, "false == phi:") || strings.HasPrefix(k, "phi:") && strings.HasSuffix(k, " == false")) && !strings.Contains(k, "rangeindex") {
+				flagIn = true
+			}
+			if nilCmp(k, " != ", errPrefix) {
+				retBad = "translate returns normally on a path on which a package failed: " + ip.Trace
+			}
+		}
+		if !flagIn && retBad == "" {
+			retBad = "translate returns normally after an iteration without the fact that the loop-carried error flag was false (the flag is overwritten rather than accumulated): " + ip.Trace
+		}
+	}
+	r.Check("R17a", "exit status 0 only if no package failed (inductive step over an arbitrary iteration)", tr.Pos(), okb && nRetP > 0 && retBad == "", retBad)
+	if nClean == 0 || nFailed == 0 {
+		r.Unknown("R17b", "translate loop paths", tr.Pos(), fmt.Sprintf("%d one-iteration paths with err == nil and %d with err != nil: the per-package error test is not visible on the paths", nClean, nFailed))
 	}
 	r.Check("R17b", "translate writes every error-free package", instrPos(write), okb && nOne > 0 && missClean == "", missClean)
 	r.Check("R17b", "translate writes a failed package only under -ignore-errors", instrPos(write), okb && nOne > 0 && wroteFailed == "", wroteFailed)
@@ -719,4 +761,14 @@ func directWriter(p *Prog) *ssa.Function {
 		}
 	}
 	return w
+}
+
+// nilCmp: k is the relation "nil <op> X" or "X <op> nil" with X starting with prefix.
+func nilCmp(k, op, prefix string) bool {
+	i := topLevelIndex(k, op)
+	if i < 0 {
+		return false
+	}
+	a, b := k[:i], k[i+len(op):]
+	return a == "nil" && strings.HasPrefix(b, prefix) || b == "nil" && strings.HasPrefix(a, prefix)
 }
